@@ -72,8 +72,43 @@ fn parse_args_file(text: &str) -> Option<(Vec<i64>, Vec<u8>)> {
     Some((args?, expected?))
 }
 
+/// Valid programs of kinds the generator cannot produce (its instance sets must stay finite):
+/// non-regular data and codata types used at finite depth, mutually recursive polymorphic types,
+/// type parameters swapped in the recursion, functions stored in non-regular data.  (name, source,
+/// expected stdout)
+pub const BUILTIN: &[(&str, &str, &str)] = &[
+    (
+        "builtin/nested-data",
+        "data Nest[A] { Flat(x: A), Deep(xs: Nest[Nest[A]]) }\ndef f(n: Nest[i64]): i64 { n.case[i64] { Flat(x) => x, Deep(xs) => g(xs) } }\ndef g(n: Nest[Nest[i64]]): i64 { n.case[Nest[i64]] { Flat(x) => f(x), Deep(xs) => 7 } }\ndef main(): i64 { println_i64(f(Deep(Flat(Flat(5))))); 0 }\n",
+        "5\n",
+    ),
+    (
+        "builtin/nested-codata",
+        "data Pair[A, B] { Tup(a: A, b: B) }\ncodata Grow[A] { here: A, next: Grow[Pair[A, A]] }\ndef mk2(p: Pair[i64, i64]): Grow[Pair[i64, i64]] { new { here => p, next => exit 3 } }\ndef mk(n: i64): Grow[i64] { new { here => n, next => mk2(Tup(n, n)) } }\ndef main(): i64 { println_i64(mk(1).next[i64].here[Pair[i64, i64]].case[i64, i64] { Tup(a, b) => a + b }); 0 }\n",
+        "2\n",
+    ),
+    (
+        "builtin/mutually-recursive-types",
+        "data Rose[A] { R(x: A, cs: Forest[A]) }\ndata Forest[A] { FNil, FCons(t: Rose[A], f: Forest[A]) }\ndef sumr(r: Rose[i64]): i64 { r.case[i64] { R(x, cs) => x + sumf(cs) } }\ndef sumf(f: Forest[i64]): i64 { f.case[i64] { FNil => 0, FCons(t, g) => sumr(t) + sumf(g) } }\ndef main(): i64 { println_i64(sumr(R(1, FCons(R(2, FNil), FNil)))); 0 }\n",
+        "3\n",
+    ),
+    (
+        "builtin/swapped-parameters",
+        "data Sw[A, B] { L(a: A, r: Sw[B, A]), E }\ndef len(s: Sw[i64, Sw[i64, i64]]): i64 { s.case[i64, Sw[i64, i64]] { L(a, r) => 1 + len2(r), E => 0 } }\ndef len2(s: Sw[Sw[i64, i64], i64]): i64 { s.case[Sw[i64, i64], i64] { L(a, r) => 1 + len(r), E => 0 } }\ndef main(): i64 { println_i64(len(L(1, L(E, L(2, E))))); 0 }\n",
+        "3\n",
+    ),
+    (
+        "builtin/function-in-nested-data",
+        "codata Fun[A, B] { apply(x: A): B }\ndata Wrap[A] { W(f: Fun[A, Wrap[Wrap[A]]]), Stop }\ndef main(): i64 { println_i64(W(new { apply(x) => Stop }).case[i64] { W(f) => f.apply[i64, Wrap[Wrap[i64]]](1).case[Wrap[i64]] { W(g) => 1, Stop => 2 }, Stop => 3 }); 0 }\n",
+        "2\n",
+    ),
+];
+
 pub fn load() -> Vec<CorpusProg> {
     let mut out = Vec::new();
+    for (name, src, expected) in BUILTIN {
+        out.push(CorpusProg { name: name.to_string(), src: src.to_string(), args: vec![], expected: Some(expected.as_bytes().to_vec()) });
+    }
     for dir in ["/repo/examples", "/repo/testsuite/end_to_end", "/repo/benchmarks/suite"] {
         let Ok(rd) = std::fs::read_dir(dir) else { continue };
         let mut names: Vec<_> = rd.flatten().map(|e| e.path()).filter(|p| p.is_dir()).collect();
@@ -108,7 +143,7 @@ pub fn all_sources() -> Vec<(String, String)> {
             }
         }
     }
-    let mut out = Vec::new();
+    let mut out: Vec<(String, String)> = BUILTIN.iter().map(|(n, s, _)| (n.to_string(), s.to_string())).collect();
     for d in ["/repo/examples", "/repo/testsuite/end_to_end", "/repo/testsuite/success_check", "/repo/testsuite/fail_check", "/repo/benchmarks/suite"] {
         walk(std::path::Path::new(d), &mut out);
     }
